@@ -124,6 +124,9 @@ var nestedExprs = []string{
 	"((groups)[0].items)[1].n", "((groups[0]).items[1]).n", "(((groups)))[0].name", "groups[0].items[1:][0].v", "groups[0].items[1:].v", "groups[*].items[0][1:]", "rows[0][1:][0]", "rows[1][0:2].abs(@)", "groups[1].rows[0][1:]",
 	"groups[*].items[*].n | [*] | [0] | [1:] | length(@)", "groups | [*].items | [*][*].n | [0] | [0]", "groups[*].name | sort(@) | [0] | length(@) | [@, @] | [0]", "groups | missing | groups",
 	"[!!(groups[0].name < `1`), !!(groups[0].items[0].n < `1`), !!(missing < missing)]", "groups[*].[!!(name < `1`), !(items[0].n >= `3`)]",
+	// one list at the head of several flattens: each builds its own result
+	"[[rows[0], groups[0].name][], [rows[0], groups[1].name][]]", "groups[*].[`[0,0,0]`, name][]", "groups[*].{r: [`[0,0,0]`, name][]}", "map(&[`[1,2,3]`, @][], groups[*].name)", "[[rows[0], `1`][], [rows[0], `2`][]]",
+	"groups[*].[`[0,0,0,0,0]`, name, name][]", "rows[*].[@, `0`][]", "[rows[*].[@, `0`][], rows]", "groups[*].[rows[0], name][] | [*][-1]", "[groups[*].[`[[1],[2],[3]]`, [name]][], `[[1],[2],[3]]`]",
 }
 
 // TestNestedCompositions runs them under the property named by VERIF_PROP.
